@@ -57,17 +57,19 @@ def forFields (ts : List (List Cell)) (out : List Cell)
     | none => false
     | some cs => o.values.all fun (f, v) => p i f (cs.map fun c => (c.values.get? f).getD .none) v
 
+/-- one field, linear: a float array of the broadcast length whose entry `s` is `Σ_j w_j · v_j[s]` -/
+def linearFieldOk (wi : List Rat) (tol : Rat) (vals : List Val) (v : Val) : Bool :=
+  match vals.mapM samples, v with
+  | some rows, .arr false [n] data =>
+    let S := rows.foldl (fun m r => max m r.length) 0
+    n == S && data.length == S && wi.length == rows.length &&
+    (List.range S).all fun s => close tol (data.getD s 0) (wsum wi (rows.map (pick · s)))
+  | _, _ => false
+
 /-- **linear**: a float array of the broadcast length whose entry `s` is `Σ_j w_j · v_j[s]`
 (scalars and length-1 arrays broadcast); `tol = 0` demands equality over ℚ -/
 def linearValueOk (ts : List (List Cell)) (w : Weights) (out : List Cell) (tol : Rat) : Bool :=
-  forFields ts out fun i _ vals v =>
-    match vals.mapM samples, v with
-    | some rows, .arr false [n] data =>
-      let S := rows.foldl (fun m r => max m r.length) 0
-      let wi := specWeights w i ts.length
-      n == S && data.length == S && wi.length == rows.length &&
-      (List.range S).all fun s => close tol (data.getD s 0) (wsum wi (rows.map (pick · s)))
-    | _, _ => false
+  forFields ts out fun i _ vals v => linearFieldOk (specWeights w i ts.length) tol vals v
 
 /-- **linear, convex weights**: every output sample lies between the smallest and the largest
 input sample at that position -/
@@ -87,20 +89,24 @@ def agreeOk (ts : List (List Cell)) (out : List Cell) (tol : Rat) : Bool :=
     | some (r0 :: _), .arr _ _ data => data.zipIdx.all fun (x, s) => close tol x (pick r0 s)
     | _, _ => false
 
-/-- **mixture membership**: an output array has the inputs' common length and every sample
-equals the sample AT THE SAME INDEX of one of the inputs; a scalar equals every input's scalar -/
+/-- one field, mixture: an output array has the inputs' common length and every sample equals the
+sample AT THE SAME INDEX of one of the inputs; a scalar equals every input's scalar -/
+def mixtureFieldOk (vals : List Val) (v : Val) : Bool :=
+  match v with
+  | .arr false [n] data =>
+    (match vals.mapM (fun x => match x with | .arr _ [_] d => some d | _ => none) with
+     | some rows =>
+       rows.all (·.length == data.length) && n == data.length &&
+       data.zipIdx.all fun (x, s) => rows.any fun r => r.getD s 0 == x
+     | none => false)
+  | .int _ => vals.all (· == v)
+  | .flt _ => vals.all (· == v)
+  | _ => false
+
+/-- **mixture membership**: every field of every output cell satisfies `mixtureFieldOk` against
+the inputs' values at the same coordinate -/
 def mixtureMembership (ts : List (List Cell)) (out : List Cell) : Bool :=
-  forFields ts out fun _ _ vals v =>
-    match v with
-    | .arr false [n] data =>
-      (match vals.mapM (fun x => match x with | .arr _ [_] d => some d | _ => none) with
-       | some rows =>
-         rows.all (·.length == data.length) && n == data.length &&
-         data.zipIdx.all fun (x, s) => rows.any fun r => r.getD s 0 == x
-       | none => false)
-    | .int _ => vals.all (· == v)
-    | .flt _ => vals.all (· == v)
-    | _ => false
+  forFields ts out fun _ _ vals v => mixtureFieldOk vals v
 
 /-- **degenerate weights** `e_j`: the output samples are input `j`'s samples -/
 def mixtureIsInput (ts : List (List Cell)) (j : Nat) (out : List Cell) : Bool :=
